@@ -22,7 +22,8 @@ from ..ref import e_strace as S
 
 ID = "C25"
 LEVEL = "exploration"
-RULE = ("case families: imports (multi-file projects: layered diamond import graphs depth 8..26 x width 2..3, with "
+RULE = ("case families: moddeep (values nested 20..200 levels from 7 constructors, then one of 7 display operations), "
+        "imports (multi-file projects: layered diamond import graphs depth 8..26 x width 2..3, with "
         "cycles / skip edges, long chains), sequel (10 layouts in which an earlier test / toplevel call / shared function exhausts the "
         "budget and a non-terminating unit follows in the same process), nonterm (15 looping/recursing shapes x 20 loop bodies x phase shift x {top, function, test} x "
         "{playground-run, sandboxed-test}), depth (bounded recursion around the 1000-frame limit), builtin (every "
@@ -78,6 +79,13 @@ def gen_cases(tier, seed):
     for ii, (layout, depth, width) in enumerate(IMPORT_CORE):
         yield {"t": "imports", "layout": layout, "depth": depth, "width": width, "where": "file",
                "mode": "playground" if (ii + seed) % 2 == 0 else "sbtest"}
+    # core m: moderately deep values (20..200 levels: far below the stack-overflow findings, cheap in ticks) that are
+    # then displayed; the display must cost time polynomial in the depth
+    for mi, (ctor, depth, op) in enumerate(MODDEEP_CORE):
+        fv = op == "final-value"   # only the playground prints the final value (toplevel or function result)
+        yield {"t": "moddeep", "ctor": ctor, "n": depth, "k": 1, "op": op,
+               "where": wheres[(mi + seed) % 2] if fv else wheres[(mi + seed) % 3],
+               "mode": "playground" if fv or (mi + seed) % 2 == 0 else "sbtest"}
     # core 0: the budget is exhausted by an EARLIER unit (test, toplevel expression, shared function) and a
     # non-terminating unit follows in the same process
     for li, layout in enumerate(SEQUEL_LAYOUTS):
@@ -132,12 +140,17 @@ def gen_cases(tier, seed):
         r = rng.random()
         mode = rng.choice(("playground", "sbtest"))
         where = rng.choice(wheres)
-        if r < 0.05:
+        if r < 0.06:
+            op = rng.choice(MODDEEP_OPS)
+            fv = op == "final-value"
+            yield {"t": "moddeep", "ctor": rng.choice(MODDEEP_CTORS), "n": rng.randint(20, 200), "k": 1, "op": op,
+                   "mode": "playground" if fv else mode, "where": rng.choice(wheres[:2]) if fv else where}
+        elif r < 0.11:
             layout = rng.choice(IMPORT_LAYOUTS)
             yield {"t": "imports", "layout": layout, "where": "file", "mode": mode,
                    "depth": rng.randint(8, 26) if layout != "chain" else rng.choice([50, 150, 300]),
                    "width": rng.choice([2, 2, 3])}
-        elif r < 0.17:
+        elif r < 0.22:
             layout = rng.choice(SEQUEL_LAYOUTS)
             yield {"t": "sequel", "layout": layout, "mode": "playground" if layout.startswith("P") else "sbtest",
                    "where": "file", "shapes": [rng.choice(TICK_SHAPES if rng.random() < 0.7 else G.NONTERM_SHAPES)] +
@@ -233,6 +246,13 @@ def nest_program(c):
     return defs + body + "println(\"VB\")\n" + G.NEST_OPS[c["op"]] + "\n"
 
 
+MODDEEP_CTORS = ["list", "tuple", "some", "structlist", "dictlist", "mix", "ok"]
+MODDEEP_OPS = ["final-value", "println", "dbg", "string_repr", "assert-fail", "throw-repr", "interpolate"]
+# a list-holding constructor first in every batch of 4 (the batch's single 10x re-run goes to the first watchdog)
+MODDEEP_CORE = [("list", 60, "final-value"), ("tuple", 120, "string_repr"), ("structlist", 40, "println"),
+                ("some", 200, "dbg"), ("mix", 30, "assert-fail"), ("dictlist", 50, "final-value"),
+                ("list", 150, "throw-repr"), ("tuple", 20, "interpolate")]
+MODDEEP_TIMEOUT = 6.0
 IMPORT_LAYOUTS = ["diamond", "diamond-cycle", "diamond-skip", "chain", "chain-cycle"]
 # deepest diamonds first, one per batch of 4, so that a 10x re-run (one per batch) is always available to them
 IMPORT_CORE = [("diamond", 26, 2), ("chain", 200, 1), ("diamond-cycle", 12, 2), ("diamond", 8, 3),
@@ -369,7 +389,7 @@ def program(c, w):
     elif c["t"] == "builtin":
         b = by_id()[c["b"]]
         src = G.header() + G.call_text(b, G.right_vectors(b)[0], w) + "\n"
-    elif c["t"] == "nest":
+    elif c["t"] in ("nest", "moddeep"):
         src = nest_program(c)
     elif c["t"] == "long":
         src = long_program(c["kind"], c["size"])
@@ -518,6 +538,8 @@ def what(c):
                                else "<=26" if c["depth"] <= 26 else ">26")
     if c["t"] == "nest":
         return "%s %s" % (c["ctor"], c["op"])
+    if c["t"] == "moddeep":
+        return "%s %s d%s" % (c["ctor"], c["op"], "<=50" if c["n"] <= 50 else "<=120" if c["n"] <= 120 else "<=200")
     if c["t"] == "builtin":
         return c["b"]
     if c["t"] in ("long", "expmem"):
@@ -599,7 +621,7 @@ def run_batch(cases):
     with core.Scratch("gm-c25-") as sc:
         w = G.World(sc, os.urandom(4).hex())
         for i, c in enumerate(cases):
-            case_to = IMPORT_TIMEOUT if c["t"] == "imports" else base_to
+            case_to = IMPORT_TIMEOUT if c["t"] == "imports" else MODDEEP_TIMEOUT if c["t"] == "moddeep" else base_to
             t, src, tname, injected = _run(c, w, case_to, "c%d" % i)
             r = judge(c, t, tname, injected, src)
             if r["status"] == "inconclusive" and t.run.timed_out:
@@ -614,6 +636,7 @@ def run_batch(cases):
                         state = t2.state_at_kill
                         r = {"status": "violated", "key": "%s %s %s -> hang" % (c["t"], c["mode"], what(c)),
                              "sig": ("no-result:import-graph" if c["t"] == "imports" else
+                                     "no-result:moderately-deep-display" if c["t"] == "moddeep" else
                                      "no-result-within-10x-budget:%s:%s" % (c["t"], what(c).split(" ")[-1])),
                              "detail": dict(r["detail"], state_at_kill=state, budget_s=case_to * mult * 10)}
                     elif r["status"] == "held":
